@@ -791,6 +791,18 @@ def d8_regimes(prog, rep):
                 else:
                     rep.viol('regime', key, '%s; the call passes %s whose value set %r is not inside that regime, so the helper runs with an inconsistent '
                              'mixture of the folded and the raw parameter' % (why, show(arg)[:40], total), site_of(c.span))
+    if n == 0:
+        # the anchor (a sampler helper that folds its parameter, reached from a sample body) exists but the call is made where this
+        # rule does not read it (inside a closure, through another helper): the obligation stays open
+        for d in c02.ALL:
+            sk = '<%s%s as %sDistribution>::sample' % (DS, d, DS)
+            if sk not in pdb.bodies:
+                continue
+            for hk in prog.closure(sk):
+                if hk != sk and hk.startswith(DS) and pdb.bodies[hk].kind != 'closure' and helper_regimes(prog, hk):
+                    rep.undecided('regime', 'regime:%s->%s' % (d.split('::')[1], short(hk)),
+                                  'the call of %s is not made directly in the sample body: argument value set not read' % short(hk), proof=False)
+                    n += 1
     rep.floor('regime', 1, 'Binomial::sample -> binomial_btpe(p)')
 
     # fold <-> reflect pairing: a draw made with the folded parameter g(theta) must be mapped back, and only then
@@ -872,5 +884,16 @@ def d8_regimes(prog, rep):
                          'a draw made with the folded parameter must be reflected back exactly on the folded path' % (
                              show(loc), show(other[0].value)[:30], show(fc)[:30], fv, [show(st.value)[:40] for st in rets_fold],
                              [show(st.value)[:40] for st in rets_id]), site_of(other[0].span))
+    if nr == 0:
+        # no folded local found: if a sample body still reaches a folding helper, the fold is expressed some other way (two call sites of
+        # a closure, a helper): reflection and dispatch stay open
+        for d in c02.ALL:
+            sk = '<%s%s as %sDistribution>::sample' % (DS, d, DS)
+            if sk not in pdb.bodies:
+                continue
+            if any(hk != sk and hk.startswith(DS) and pdb.bodies[hk].kind != 'closure' and helper_regimes(prog, hk) for hk in prog.closure(sk)):
+                nm = d.split('::')[1]
+                rep.undecided('reflect', 'reflect:%s' % nm, 'parameter fold not read as a two-definition local', proof=False)
+                rep.undecided('fold-dispatch', 'fold-dispatch:%s' % nm, 'parameter fold not read as a two-definition local', proof=False)
     rep.floor('reflect', 1, 'Binomial::sample p <-> 1-p')
     rep.floor('fold-dispatch', 1, 'Binomial::sample inversion / BTPE choice')
